@@ -73,6 +73,14 @@ MeasA(m) == /\ m \in Active /\ Push("Measure", <<m>>)
 \* segment boundary: the current program is run, a successor program continues the register
 Seg == /\ ~fresh /\ Push("Seg", << >>) /\ nseg' = nseg + 1 /\ fresh' = TRUE /\ UNCHANGED <<reg, sim>>
 
+\* a *fresh* program of n modes offered as the next segment (Program(n), not Program(prev)): the engine must
+\* accept it only if the whole register -- every index ever created, dead or alive -- is that of the previous
+\* program (Program.can_follow); otherwise "Register mismatch" and nothing changes.
+FreshOK(n) == Len(reg) = n /\ \A i \in 1 .. n : reg[i]
+FreshSeg(n) == /\ fresh /\ nseg > 0 /\ n \in 1 .. MaxIdx
+               /\ Push(IF FreshOK(n) THEN "FreshOk" ELSE "FreshRejected", <<n>>)
+               /\ UNCHANGED <<reg, sim, nseg, fresh>>
+
 \* engine reset: simulator and run history cleared; a new first program of N0 modes (untagged)
 Reset == /\ nseg > 0 /\ fresh /\ Push("Reset", << >>)
          /\ reg' = [i \in 1 .. N0 |-> TRUE] /\ sim' = VacuumN(N0) /\ nseg' = 0 /\ fresh' = TRUE
@@ -89,6 +97,7 @@ Next == /\ Len(hist) < Depth
            \/ \E m \in Active : DelA(<<m>>) \/ RotA(m) \/ MeasA(m)
            \/ \E pr \in Pairs(Active) : MixA(pr[1], pr[2]) \/ (pr[1] < pr[2] /\ DelA(<<pr[1], pr[2]>>))
            \/ Seg \/ Reset
+           \/ (\E n \in {Cardinality(Active)} : n > 0 /\ Len(hist) > 0 /\ hist[Len(hist)].a = "Seg" /\ FreshSeg(n))
            \/ \E m \in 0 .. MaxIdx - 1 : BadUse(m) \/ BadDel(m)
 Spec == Init /\ [][Next]_vars
 
